@@ -271,6 +271,9 @@ AXIS_FAMILIES = {
     # cell cut off-centre at the boundaries of small neighbours (B7G), and four halvings of a cell with 3-decimal coordinates (B7D)
     'B7G': (lambda i: [F(0), F(2500007, 10), F(6000001, 10), F(100000001, 10)][i], lambda j: [F(0), F(8000000), F(9000000), F(10000000)][j]),
     'B7D': (lambda i: [F(10505786164, 1000), F(20960818130, 1000), F(230000005, 10)][i], lambda j: [F(0), F(500000), F(7000003, 10)][j]),
+    # designs written in metres: cells of a millimetre (areas of 1e-6 and below after refinement) and of a picometre
+    'MILLI': (lambda i: F(i, 1000), lambda j: F(j, 1000)),
+    'PICO': (lambda i: F(3 * i, 10 ** 12), lambda j: F(2 * j, 10 ** 12)),
     'SLVX': (lambda i: [F(0), F(1), F(128), F(256)][i], lambda j: [F(0), F(64), F(128), F(192)][j]),
     'SLVY': (lambda i: [F(0), F(64), F(128), F(192)][i], lambda j: [F(0), F(1), F(128), F(256)][j]),
 }
@@ -395,12 +398,13 @@ def shard_plan(tier):
     out = []
     if tier == 'quick':
         plan = [('HALF', 3, 2, 3, True), ('DEC1', 2, 3, 2, False), ('STRX', 3, 2, 2, False), ('STRY', 2, 3, 2, False), ('P300', 3, 2, 2, False), ('B7', 3, 2, 2, False),
-                ('SLVX', 3, 3, 3, False), ('SLVY', 3, 3, 3, False), ('FAR9', 3, 2, 2, False), ('B7G', 3, 3, 3, False), ('B7D', 2, 2, 2, False)]
+                ('SLVX', 3, 3, 3, False), ('SLVY', 3, 3, 3, False), ('FAR9', 3, 2, 2, False), ('B7G', 3, 3, 3, False), ('B7D', 2, 2, 2, False),
+                ('MILLI', 2, 2, 2, False), ('PICO', 2, 2, 2, False)]
     else:
         # depth 2 with all 8 operations on the larger plan; depth 3 (6 operations) on the small plan marked deep=True
         plan = [('HALF', 3, 2, 3, True), ('DEC1', 3, 2, 3, True), ('DEC3', 2, 3, 3, False), ('STRX', 3, 2, 3, False), ('STRY', 2, 3, 3, False),
                 ('P300', 3, 2, 3, False), ('DEC7', 4, 1, 4, False), ('HALF', 2, 2, 2, 'deep'), ('DEC1', 2, 1, 2, 'deep'), ('B7', 3, 2, 3, False),
-                ('SLVX', 3, 3, 3, False), ('SLVY', 3, 3, 3, False), ('FAR9', 3, 2, 3, False), ('FAR9', 2, 3, 3, False), ('B7G', 3, 3, 3, False), ('B7D', 2, 2, 3, False)]
+                ('SLVX', 3, 3, 3, False), ('SLVY', 3, 3, 3, False), ('FAR9', 3, 2, 3, False), ('FAR9', 2, 3, 3, False), ('B7G', 3, 3, 3, False), ('B7D', 2, 2, 3, False), ('MILLI', 3, 2, 3, False), ('PICO', 2, 2, 3, False)]
     for (fam, nx, ny, kmax, rich) in plan:
         n = len(layouts(nx, ny, kmax))
         step = 4 if not (fam.startswith('SLV') or fam == 'B7G') else 48
@@ -550,6 +554,14 @@ class Checker:
             if abs(fill[i] - area) > s2 + 1e-12 * area:
                 res.violation('tiling', self.case(hist), at, f'cell {list(bc[0])} of area {area} exactly covered',
                               f'covered area {fill[i]}')
+        # (3b) every cell owns its occupancy map: updating the ratios of one cell in place (as the optimiser's extraction does)
+        #      must not change a sibling cut from the same parent, nor the allocation that was refined
+        if out is not alloc:
+            ids_out = [id(a.alloc) for a in out.allocations]
+            ids_in = {id(a.alloc) for a in alloc.allocations}
+            if len(set(ids_out)) != len(ids_out) or ids_in & set(ids_out):
+                res.violation('aliased-maps', self.case(hist), at, 'one occupancy map object per cell',
+                              'cells of the result share a map object with each other or with the refined allocation')
         # (4) module area and centre of mass
         mods = sorted({m for bc in before for m in bc[3]})
         for m in mods:
